@@ -19,9 +19,9 @@ import (
 
 func init() {
 	Registry["C05"] = Spec{
-		Fn:    c05,
-		Level: "fault_enumeration",
-		Rule: "round trips: payload lengths 0..512 (quick) / 0..4096 (thorough) and sizes up to 1 MiB / 8 MiB x {compressible, random, zero} x {None, LZ4, LZ4HC levels 0..13, ZSTD} x frame sequences 1..8 x read sizes {1,2,3,7,16,len-1,len,len+1,random}; reference parse of every frame (layout, checksum placement, limits). Fault enumeration: every offset of every frame x masks {0x01,0x80,0xFF} (thorough: all 255 values for frames <= 128 B), reads continued after every error, each output byte attributed to a verified frame through position-tagged payloads; size fields beyond 128 MiB must be rejected with a bounded allocation delta. Non-trivial = frame with >=1 payload byte; distinct = (method, level, length, offset, mask)",
+		Fn:          c05,
+		Level:       "fault_enumeration",
+		Rule:        "round trips: payload lengths 0..512 (quick) / 0..4096 (thorough) and sizes up to 1 MiB / 8 MiB x {compressible, random, zero} x {None, LZ4, LZ4HC levels 0..13, ZSTD} x frame sequences 1..8 x read sizes {1,2,3,7,16,len-1,len,len+1,random}; reference parse of every frame (layout, checksum placement, limits). Fault enumeration: every offset of every frame x masks {0x01,0x80,0xFF} (thorough: all 255 values for frames <= 128 B), reads continued after every error, each output byte attributed to a verified frame through position-tagged payloads; size fields beyond 128 MiB must be rejected with a bounded allocation delta. Non-trivial = frame with >=1 payload byte; distinct = (method, level, length, offset, mask)",
 		Assumptions: []string{"CityHash128 (go-faster/city), pierrec/lz4 and klauspost/zstd are trusted primitives shared with the library; the frame layout is checked independently", "allocation measured with runtime/metrics /gc/heap/allocs:bytes"},
 		MinDistinct: 500,
 	}
@@ -275,7 +275,7 @@ func c05RoundTrip(r *core.Run, rng *rand.Rand, m c05Method, payloads [][]byte, d
 		r.NonTrivial(m.Name, desc, len(payloads))
 	}
 	r.SetAdd("methods", m.Name)
-	patterns := [][]int{{1}, {2}, {3}, {7}, {16}, {total - 1}, {total}, {total + 1}, {1 + rng.Intn(total + 2), 1 + rng.Intn(64)}}
+	patterns := [][]int{{1}, {2}, {3}, {7}, {16}, {total - 1}, {total}, {total + 1}, {1 + rng.Intn(total+2), 1 + rng.Intn(64)}}
 	if total > 20000 {
 		patterns = [][]int{{4096}, {total - 1}, {total + 1}, {1 + rng.Intn(total)}, {65536}}
 	}
